@@ -68,13 +68,14 @@ func (s *subscriptionsState) CreateFrom(sessionID string, peer uint64, pattern [
 		QoS:       qos,
 		LastAdded: clock(),
 	}
-	s.set(subscription)
+	// the broadcast is built first: an entry that cannot be encoded must not enter the store
 	buf, err := proto.Marshal(&api.StateBroadcastEvent{
 		Subscriptions: []*api.Subscription{&subscription},
 	})
 	if err != nil {
 		return err
 	}
+	s.set(subscription)
 	mountpointIdx := bytes.Index(pattern, []byte{'/'})
 	s.recorder.RecordEvent(string(pattern[:mountpointIdx]), audit.SubscriptionCreated, map[string]string{
 		"session_id": sessionID,
@@ -94,13 +95,14 @@ func (s *subscriptionsState) Delete(sessionID string, pattern []byte) error {
 		Peer:        s.peer,
 		LastDeleted: clock(),
 	}
-	s.set(subscription)
+	// the broadcast is built first: an entry that cannot be encoded must not enter the store
 	buf, err := proto.Marshal(&api.StateBroadcastEvent{
 		Subscriptions: []*api.Subscription{&subscription},
 	})
 	if err != nil {
 		return err
 	}
+	s.set(subscription)
 	mountpointIdx := bytes.Index(pattern, []byte{'/'})
 	s.recorder.RecordEvent(string(pattern[:mountpointIdx]), audit.SubscriptionDeleted, map[string]string{
 		"session_id": sessionID,
